@@ -233,6 +233,11 @@ pub fn relations_for(seed: u64, problem: &Value, matrices: &[Value]) -> (Vec<Val
         stats.skipped = Some("nonmetric");
         return (vec![], stats);
     }
+    if matrices.iter().any(|m| m.get("timestamp").is_some()) {
+        // tours on time-dependent matrices are a known-finding domain of the hard time rules: nothing to derive from
+        stats.skipped = Some("time-dependent");
+        return (vec![], stats);
+    }
     if !crate::gen::problem::flags_are_closed(matrices) {
         stats.skipped = Some("unreachable-random");
         return (vec![], stats);
